@@ -174,7 +174,21 @@ def deep_pairs(rng, lang, n):
         b = _tree_of([_conc_atom(rng, lang) for _ in range(k)], rng, sl)
         atoms = _atoms_of(b, [])
         mode = rng.random()
-        if mode < 0.75:
+        if lang == 'ja' and mode < 0.3:
+            # generality twins: a short shared part whose three-part features carry variables on both sides, one side more general
+            b = _tree_of([_conc_atom(rng, lang) for _ in range(rng.choice([1, 1, 2]))], rng, sl)
+            def general(c, p):
+                if c['k'] == 'F':
+                    return fun(general(c['l'], p), c['s'], general(c['r'], p))
+                kv = [dict(q) for q in c['f']['kv']]
+                for j in range(3):
+                    if rng.random() < p:
+                        kv[j]['v'], kv[j]['x'] = 'X%d' % (j + 1), True
+                return atom(c['b'], {'t': 'T', 'kv': kv})
+            mid = general(b, 0.5)
+            b, b2 = (mid, general(mid, 0.5)) if rng.random() < 0.5 else (general(mid, 0.5), mid)
+            note = 'variable triples on both sides of the shared part'
+        elif mode < 0.75:
             i = rng.randrange(len(atoms))
             b2 = _replace_atom(b, i, _other_feature(atoms[i], rng, lang), [0])
             note = 'atom %d of %d of the shared part differs' % (i, len(atoms))
@@ -184,6 +198,15 @@ def deep_pairs(rng, lang, n):
         if rng.random() < 0.3:
             a = fun(a, rng.choice(sl), _conc_atom(rng, lang))
         c, d = _conc_atom(rng, lang), _conc_atom(rng, lang)
+        # the parts outside b often repeat features of b (a substitution recorded for b then shows in the result)
+        if rng.random() < 0.6:
+            a = rng.choice(_atoms_of(b, []))
+            if rng.random() < 0.4:
+                a = fun(a, rng.choice(sl), rng.choice(_atoms_of(b, [])))
+        if rng.random() < 0.6:
+            c = rng.choice(_atoms_of(b2, []))
+        if rng.random() < 0.4:
+            d = rng.choice(_atoms_of(b2, []))
         shape = rng.randrange(6)
         if shape == 0:
             x, y = fun(a, '/', b), b2
